@@ -129,7 +129,8 @@ class C13(Prop):
     rule = ('geo: e_i = fl(L + a q^(k+i)), i=0..2, built in Fractions; |L|,|a| = 10^U(-15,15) (independent, '
             'ratio-controlled or L=0), q in (-50,50) minus [-0.02,0.02] and [0.98,1.02], k in 0..5. Oracle: exact '
             'Shanks transform S of the float triple. Cases where the exact eps-convergence guard or the '
-            'exact |sss e1| <= 1e-4 guard fires or is within a factor 4 of firing are skipped and counted. '
+            'exact |sss e1| <= 1e-4 guard fires or is within a factor 4 of firing, or whose rounded terms do not '
+            'resolve the curvature (|d2-d1| <= 8u max|e_i|), are skipped and counted. '
             'Non-trivial geo case = no guard fired and the applied correction |1/sss| > 100 T; distinct by '
             '(L,a,q,k). total: arrays (shape <= 40 elements, or scalars) of triples from '
             'floats(-1e100,1e100), ties, constants, zeros, arithmetic progressions, subnormal differences, '
